@@ -2848,7 +2848,9 @@ static void
 iter_state_free(iter_state *self)
 {
     tsk_tree_free(&self->tree);
-    tsk_bit_array_free(self->node_samples);
+    if (self->node_samples != NULL) {
+        tsk_bit_array_free(self->node_samples);
+    }
     tsk_safe_free(self->node_samples);
     tsk_safe_free(self->parent);
     tsk_safe_free(self->edges_out);
